@@ -107,7 +107,8 @@ Inductive ein :=
 | IConcat (parts : list ostr)
 | ILeft (s : list Z) (n : Z)
 | IRight (s : list Z) (n : Z)
-| ISubstr (s : list Z) (p n : Z).
+| ISubstr (s : list Z) (p n : Z)
+| ISoundex (s : list Z).
 
 Record facts := mkFacts {
   f_slice : slice_cfg; f_element_at : shift_cfg; f_try_element_at : shift_cfg; f_getitem : shift_cfg;
@@ -115,7 +116,7 @@ Record facts := mkFacts {
   f_overlay : overlay_cfg; f_overlap : overlap_cfg; f_union : union_cfg; f_remove : cmpop; f_nanvl : nanvl_cfg;
   f_seq_default : seq_default; f_date_add : dshift_cfg; f_date_sub : dshift_cfg; f_lev : lev_cfg; f_unix_millis : millis_cfg;
   f_slice_rebase : slice_rebase; f_fact_guard : option (Z * Z); f_union_guard : bool; f_overlay_glue : glue;
-  f_concat_glue : glue; f_append_guard : bool; f_left_floor : option Z; f_right_floor : option Z; f_substr_remap : option (Z * Z) }.
+  f_concat_glue : glue; f_append_guard : bool; f_left_floor : option Z; f_right_floor : option Z; f_substr_remap : option (Z * Z); f_soundex : soundex_cfg }.
 
 Definition duck_of (F : facts) (i : ein) : rv :=
   match i with
@@ -146,6 +147,7 @@ Definition duck_of (F : facts) (i : ein) : rv :=
   | ILeft s n => RList (duck_left (f_left_floor F) s n)
   | IRight s n => RList (duck_right (f_right_floor F) s n)
   | ISubstr s p n => RList (duck_substr (f_substr_remap F) s p n)
+  | ISoundex s => RList (duck_soundex (f_soundex F) s)
   end.
 
 Definition spark_of (i : ein) : rv :=
@@ -176,6 +178,7 @@ Definition spark_of (i : ein) : rv :=
   | ILeft s n => RList (spark_left s n)
   | IRight s n => RList (spark_right s n)
   | ISubstr s p n => RList (spark_substr s p n)
+  | ISoundex s => RList (spark_soundex s)
   end.
 
 (** the domain on which the emulation's theorem, instantiated on the facts F, claims equality (false everywhere when the
@@ -219,6 +222,7 @@ Definition in_dom (F : facts) (i : ein) : bool :=
   | ILeft s n => floor_exact (f_left_floor F) || (0 <=? n)
   | IRight s n => floor_exact (f_right_floor F) || (0 <=? n)
   | ISubstr s p n => (0 <=? n) && ((1 <=? p) || (remap_exact (f_substr_remap F) && (0 <=? p)))
+  | ISoundex s => soundex_cfg_ok (f_soundex F) && starts_with_letter s && forallb (fun c => (0 <=? c) && (c <? 128)) s
   end.
 
 Open Scope string_scope.
